@@ -90,6 +90,8 @@ def run_tlc(module: str, cfg_text: str, *, workers=16, env=None, timeout=900, co
   dump: None or a path (relative to the work dir) passed to "-dump".
   extra_files: {filename: text} written into the work dir (generated MC modules, traces).
   """
+  if dump is not None:
+    workers = 1          # TLC's state dump is not written atomically per state when several workers run
   work = new_scratch(name or module)
   for f in os.listdir(SPEC_DIR):
     if f.endswith(".tla"):
